@@ -14,9 +14,6 @@ import (
 	"testing"
 )
 
-var _ = zlib.NewWriter // TEMP
-var _ = hex.EncodeToString // TEMP
-
 func c05Docs(t *testing.T) []*c02Doc {
 	var docs []*c02Doc
 	for i, mk := range c02Scenarios() {
@@ -93,7 +90,6 @@ func TestB2C05Mutations(t *testing.T) {
 		}
 		// work bound: the walk fetches at most 64 objects
 		bound := c05WorkBound(len(doc.bytes), 64+bytes.Count(doc.bytes, []byte("endobj")))
-		var maxSeen, maxSeen2 int64
 		for pos := 0; pos < len(doc.bytes); pos += stride {
 			for _, repl := range []byte{0x00, 'x', '9', '<', 0xff} {
 				mut := append([]byte{}, doc.bytes...)
@@ -114,7 +110,6 @@ func TestB2C05Mutations(t *testing.T) {
 						if src.bytes > bound {
 							t.Errorf("B2-FAIL work-walk %s pos=%d byte=%#x mode=%d: %d bytes served for a file of %d bytes (bound %d)", doc.desc, pos, repl, mode, src.bytes, len(mut), bound)
 						}
-						if src.bytes > maxSeen { maxSeen = src.bytes; t.Logf("TEMP walk %d of %d size %d", src.bytes, bound, len(mut)) }
 					}
 					src := &c05Meter{data: mut, limit: 4 * bound}
 					if fi, err := SequentialScan(src, int64(len(mut))); err == nil {
@@ -128,7 +123,6 @@ func TestB2C05Mutations(t *testing.T) {
 					if src.bytes > bound {
 						t.Errorf("B2-FAIL work-scan %s pos=%d byte=%#x: %d bytes served for a file of %d bytes (bound %d)", doc.desc, pos, repl, src.bytes, len(mut), bound)
 					}
-					if src.bytes > maxSeen2 { maxSeen2 = src.bytes; t.Logf("TEMP scan %d of %d size %d", src.bytes, bound, len(mut)) }
 				}()
 			}
 		}
@@ -498,95 +492,231 @@ func TestB2C05Work(t *testing.T) {
 
 var c20Marker = regexp.MustCompile(`(?m)^(\d+) (\d+) obj\b`)
 
+// c20Object is the ground truth about one indirect object of a complete file: where its
+// header starts and where its "endobj" ends.
+var c20Reported = map[string]bool{}
+
+type c20Object struct {
+	ref        Reference
+	start, end int
+}
+
+func c20Truth(data []byte) []c20Object {
+	var truth []c20Object
+	for _, m := range c20Marker.FindAllSubmatchIndex(data, -1) {
+		var num, gen int
+		fmt.Sscanf(string(data[m[2]:m[3]]), "%d", &num)
+		fmt.Sscanf(string(data[m[4]:m[5]]), "%d", &gen)
+		e := bytes.Index(data[m[0]:], []byte("endobj"))
+		if e < 0 {
+			continue
+		}
+		truth = append(truth, c20Object{NewReference(uint32(num), uint16(gen)), m[0], m[0] + e + 6})
+	}
+	return truth
+}
+
+// c20CheckScan scans data (a prefix or a damaged copy of doc.bytes) and requires every object
+// of complete to be listed at its true offset, not broken, with the value that was written.
+func c20CheckScan(t *testing.T, doc *c02Doc, data []byte, what string, complete []c20Object, streamPhase int) {
+	// one line per document, kind of failure and object
+	fail := func(kind string, ref Reference, format string, args ...any) {
+		key := fmt.Sprint(doc.desc, kind, ref)
+		if c20Reported[key] {
+			return
+		}
+		c20Reported[key] = true
+		t.Errorf("B2-FAIL "+kind+" "+format, args...)
+	}
+	fi, err := SequentialScan(bytes.NewReader(data), int64(len(data)))
+	if len(complete) == 0 {
+		return
+	}
+	if err != nil {
+		fail("scan-fails", 0, "%s %s complete=%d: %v", doc.desc, what, len(complete), err)
+		return
+	}
+	listed := map[int]*FileObject{}
+	for _, sec := range fi.Sections {
+		for _, o := range sec.Objects {
+			listed[int(o.ObjStart)] = o
+		}
+	}
+	for _, g := range complete {
+		o := listed[g.start]
+		if o == nil || o.Broken || o.Reference != g.ref {
+			fail("object-lost", g.ref, "%s %s ref=%v start=%d listed=%v", doc.desc, what, g.ref, g.start, o)
+			continue
+		}
+		if want, ok := doc.objects[g.ref]; ok {
+			got, err := fi.Read(o)
+			if err != nil || !Equal(got, b2Expect(want)) {
+				fail("object-value", g.ref, "%s %s ref=%v want=%s got=%s err=%v", doc.desc, what, g.ref, AsString(want), AsString(got), err)
+			}
+		}
+		for _, st := range doc.streams {
+			if st.ref != g.ref || len(st.filters) != 0 || (streamPhase >= 0 && (streamPhase-g.end)%7 != 0) {
+				continue
+			}
+			if len(st.data) >= 1024 && st.data[len(st.data)-1] == '\r' {
+				// data ending in a bare CR followed by the writer's LF before endstream reads
+				// as a CR LF end-of-line marker when the (indirect) length object is not available:
+				// inherently ambiguous, outside what a prefix can give up
+				continue
+			}
+			// an unfiltered stream: the stored bytes are the data (read twice: the second
+			// read must not depend on state left by the first)
+			for round := 0; round < 2; round++ {
+				got, err := fi.Read(o)
+				stm, ok := got.(*Stream)
+				if err != nil || !ok {
+					fail("stream-value", g.ref, "%s %s ref=%v round=%d: %v %v", doc.desc, what, g.ref, round, got, err)
+					break
+				}
+				raw, err := io.ReadAll(stm.NewReader())
+				if err != nil || !bytes.Equal(raw, st.data) {
+					fail("stream-value", g.ref, "%s %s ref=%v round=%d: %d bytes, want %d (%v)", doc.desc, what, g.ref, round, len(raw), len(st.data), err)
+					break
+				}
+			}
+		}
+	}
+}
+
+// c20Damaged overwrites, one region at a time, the cross-reference data of doc: the offset
+// after the last startxref, the head of the last cross-reference section, and everything from
+// that section to the end of the file.  Objects which overlap the region are not required.
+func c20Damaged(t *testing.T, doc *c02Doc, truth []c20Object) int {
+	cases := 0
+	data := doc.bytes
+	var regions [][2]int
+	if sx := bytes.LastIndex(data, []byte("startxref")); sx >= 0 {
+		a := sx + len("startxref")
+		for a < len(data) && (data[a] < '0' || data[a] > '9') {
+			a++
+		}
+		b := a
+		for b < len(data) && data[b] >= '0' && data[b] <= '9' {
+			b++
+		}
+		regions = append(regions, [2]int{a, b})
+		if x := bytes.LastIndex(data[:sx], []byte("\nxref")); x >= 0 && (len(truth) == 0 || x > truth[len(truth)-1].start) {
+			// a classic table
+			regions = append(regions, [2]int{x + 1, min(x+41, sx)}, [2]int{x + 1, len(data)})
+		} else if len(truth) > 0 {
+			// a cross-reference stream: the middle of its data, and all of it to the end
+			last := truth[len(truth)-1]
+			if s := bytes.Index(data[last.start:last.end], []byte("stream")); s >= 0 {
+				mid := (last.start + s + 8 + last.end - 16) / 2
+				regions = append(regions, [2]int{mid, min(mid+40, last.end-16)}, [2]int{last.start + s + 8, len(data)})
+			}
+		}
+	}
+	for ri, reg := range regions {
+		for _, fill := range []byte{' ', 'x', '7'} {
+			if fill == '7' && ri != 0 {
+				continue // digits only where digits were
+			}
+			cases++
+			mut := append([]byte{}, data...)
+			for k := reg[0]; k < reg[1]; k++ {
+				mut[k] = fill
+			}
+			var complete []c20Object
+			for _, g := range truth {
+				if g.end <= reg[0] || g.start >= reg[1] {
+					complete = append(complete, g)
+				}
+			}
+			c20CheckScan(t, doc, mut, fmt.Sprintf("overwritten=%d..%d fill=%q", reg[0], reg[1], fill), complete, -1)
+		}
+	}
+	return cases
+}
+
+// c20NumberDoc is a file written by the Writer in which the object and generation numbers
+// have every number of digits up to the largest legal values.
+func c20NumberDoc(v Version, human bool, maxNum uint32) (*c02Doc, error) {
+	doc := &c02Doc{objects: map[Reference]Object{}, version: v}
+	doc.desc = fmt.Sprintf("numbers v=%v human=%v max=%d", v, human, maxNum)
+	var buf bytes.Buffer
+	w, err := NewWriter(&buf, v, &WriterOptions{HumanReadable: human})
+	if err != nil {
+		return nil, err
+	}
+	pages := w.Alloc()
+	w.GetMeta().Catalog.Pages = pages
+	doc.objects[pages] = Dict{"Type": Name("Pages"), "Kids": Array{}, "Count": Integer(0)}
+	if err := w.Put(pages, doc.objects[pages]); err != nil {
+		return nil, err
+	}
+	var nums []uint32
+	for p := uint32(10); p <= 10000000; p *= 10 {
+		nums = append(nums, p-1, p)
+	}
+	// the largest number which leaves room for the objects written by Close
+	nums = append(nums, 1<<16-1, 1<<16, 1<<24-5, maxNum)
+	gens := []uint16{0, 9, 10, 99, 100, 999, 1000, 9999, 10000, 65535}
+	last := uint32(1)
+	i := 0
+	for _, num := range nums {
+		if num <= last || num > maxNum {
+			continue
+		}
+		last = num
+		ref := NewReference(num, gens[i%len(gens)])
+		i++
+		if i%3 == 0 {
+			data := []byte(fmt.Sprintf("%% stream object %d\n0 0 m 1 1 l S\n", num))
+			dict := Dict{"N": Integer(num)}
+			sw, err := w.OpenStream(ref, dict)
+			if err != nil {
+				return nil, fmt.Errorf("OpenStream %v: %w", ref, err)
+			}
+			if _, err := sw.Write(data); err != nil {
+				return nil, err
+			}
+			if err := sw.Close(); err != nil {
+				return nil, err
+			}
+			doc.streams = append(doc.streams, c02Stream{ref, dict, nil, data})
+			continue
+		}
+		doc.objects[ref] = Dict{"N": Integer(num), "G": Integer(ref.Generation()), "S": String("numbered")}
+		if err := w.Put(ref, doc.objects[ref]); err != nil {
+			return nil, fmt.Errorf("Put %v: %w", ref, err)
+		}
+	}
+	if err := w.Close(); err != nil {
+		return nil, fmt.Errorf("Close: %w", err)
+	}
+	doc.bytes = buf.Bytes()
+	return doc, nil
+}
+
 func TestB2C20Prefixes(t *testing.T) {
 	cases := 0
+	step := 3
+	if b2Thorough() {
+		step = 1
+	}
 	for _, doc := range c05Docs(t) {
 		if doc.ownerPwd != "" {
 			continue
 		}
 		// ground truth from the complete file: object starts and the end of each "endobj"
-		type gt struct {
-			ref        Reference
-			start, end int
-		}
-		var truth []gt
-		for _, m := range c20Marker.FindAllSubmatchIndex(doc.bytes, -1) {
-			var num, gen int
-			fmt.Sscanf(string(doc.bytes[m[2]:m[3]]), "%d", &num)
-			fmt.Sscanf(string(doc.bytes[m[4]:m[5]]), "%d", &gen)
-			e := bytes.Index(doc.bytes[m[0]:], []byte("endobj"))
-			if e < 0 {
-				continue
-			}
-			truth = append(truth, gt{NewReference(uint32(num), uint16(gen)), m[0], m[0] + e + 6})
-		}
-		step := 3
-		if b2Thorough() {
-			step = 1
-		}
+		truth := c20Truth(doc.bytes)
 		for n := 0; n <= len(doc.bytes); n += step {
-			prefix := doc.bytes[:n]
-			var complete []gt
+			var complete []c20Object
 			for _, g := range truth {
 				if g.end <= n {
 					complete = append(complete, g)
 				}
 			}
 			cases++
-			fi, err := SequentialScan(bytes.NewReader(prefix), int64(n))
-			if len(complete) == 0 {
-				continue
-			}
-			if err != nil {
-				t.Errorf("B2-FAIL scan-fails %s prefix=%d complete=%d: %v", doc.desc, n, len(complete), err)
-				continue
-			}
-			listed := map[int]*FileObject{}
-			for _, sec := range fi.Sections {
-				for _, o := range sec.Objects {
-					listed[int(o.ObjStart)] = o
-				}
-			}
-			for _, g := range complete {
-				o := listed[g.start]
-				if o == nil || o.Broken || o.Reference != g.ref {
-					t.Errorf("B2-FAIL object-lost %s prefix=%d ref=%v start=%d listed=%v", doc.desc, n, g.ref, g.start, o)
-					continue
-				}
-				if want, ok := doc.objects[g.ref]; ok {
-					got, err := fi.Read(o)
-					if err != nil || !Equal(got, b2Expect(want)) {
-						t.Errorf("B2-FAIL object-value %s prefix=%d ref=%v want=%s got=%s err=%v", doc.desc, n, g.ref, AsString(want), AsString(got), err)
-					}
-				}
-				for _, st := range doc.streams {
-					if st.ref != g.ref || len(st.filters) != 0 || (n-g.end)%7 != 0 {
-						continue
-					}
-					if len(st.data) >= 1024 && st.data[len(st.data)-1] == '\r' {
-						// data ending in a bare CR followed by the writer's LF before endstream reads
-						// as a CR LF end-of-line marker when the (indirect) length object is not available:
-						// inherently ambiguous, outside what a prefix can give up
-						continue
-					}
-					// an unfiltered stream: the stored bytes are the data (read twice: the second
-					// read must not depend on state left by the first)
-					for round := 0; round < 2; round++ {
-						got, err := fi.Read(o)
-						stm, ok := got.(*Stream)
-						if err != nil || !ok {
-							t.Errorf("B2-FAIL stream-value %s prefix=%d ref=%v round=%d: %v %v", doc.desc, n, g.ref, round, got, err)
-							break
-						}
-						raw, err := io.ReadAll(stm.NewReader())
-						if err != nil || !bytes.Equal(raw, st.data) {
-							t.Errorf("B2-FAIL stream-value %s prefix=%d ref=%v round=%d: %d bytes, want %d (%v)", doc.desc, n, g.ref, round, len(raw), len(st.data), err)
-							break
-						}
-					}
-				}
-			}
+			c20CheckScan(t, doc, doc.bytes[:n], fmt.Sprintf("prefix=%d", n), complete, n)
 		}
+		cases += c20Damaged(t, doc, truth)
 	}
 	// dedicated case: the length object of a stream lies beyond the truncation point and the
 	// data quotes the keyword "endstream" at the start of a line
@@ -698,50 +828,198 @@ func (s *c19Source) ReadAt(p []byte, off int64) (int, error) {
 	return n, nil
 }
 
-func TestB2C19ReadFaults(t *testing.T) {
+// c19ReadSweep opens and walks data with the source failing from the k-th ReadAt on, and at
+// the k-th ReadAt only, for every k and every error-handling mode.
+func c19ReadSweep(t *testing.T, desc string, data []byte, pwd string, check func(map[Reference]string) string) int {
 	cases := 0
 	injected := errors.New("injected I/O failure")
-	for _, doc := range c05Docs(t) {
-		base := &c19Source{data: doc.bytes}
-		want, err := c05Walk(base, int64(len(doc.bytes)), doc.ownerPwd, ErrorHandlingStop)
-		if err != nil {
-			t.Errorf("B2-FAIL baseline %s: %v", doc.desc, err)
-			continue
+	base := &c19Source{data: data}
+	want, err := c05Walk(base, int64(len(data)), pwd, ErrorHandlingStop)
+	if err != nil {
+		t.Errorf("B2-FAIL baseline %s: %v", desc, err)
+		return 1
+	}
+	if check != nil {
+		if msg := check(want); msg != "" {
+			t.Errorf("B2-FAIL baseline %s: %s", desc, msg)
+			return 1
 		}
-		total := base.calls
-		for _, mode := range []ReaderErrorHandling{ErrorHandlingStop, ErrorHandlingRecover, ErrorHandlingReport} {
-			for _, once := range []bool{false, true} {
-				for k := 1; k <= total; k++ {
-					cases++
-					src := &c19Source{data: doc.bytes, failAt: k, onlyOnce: once, err: injected}
-					got, err := c05Walk(src, int64(len(doc.bytes)), doc.ownerPwd, mode)
-					if src.calls < k {
-						continue // the fault was never reached
+	}
+	total := base.calls
+	for _, mode := range []ReaderErrorHandling{ErrorHandlingStop, ErrorHandlingRecover, ErrorHandlingReport} {
+		for _, once := range []bool{false, true} {
+			for k := 1; k <= total; k++ {
+				cases++
+				src := &c19Source{data: data, failAt: k, onlyOnce: once, err: injected}
+				got, err := c05Walk(src, int64(len(data)), pwd, mode)
+				if src.calls < k {
+					continue // the fault was never reached
+				}
+				if err != nil {
+					if !errors.Is(err, injected) || IsMalformed(err) {
+						t.Errorf("B2-FAIL misclassified %s mode=%d once=%v k=%d: %v", desc, mode, once, k, err)
 					}
-					if err != nil {
-						if !errors.Is(err, injected) || IsMalformed(err) {
-							t.Errorf("B2-FAIL misclassified %s mode=%d once=%v k=%d: %v", doc.desc, mode, once, k, err)
-						}
+				}
+				if got == nil {
+					if err == nil {
+						t.Errorf("B2-FAIL nil-result %s mode=%d once=%v k=%d", desc, mode, once, k)
 					}
-					if got == nil {
-						if err == nil {
-							t.Errorf("B2-FAIL nil-result %s mode=%d once=%v k=%d", doc.desc, mode, once, k)
+					continue
+				}
+				// every object is either what it is without the fault, or an error
+				for ref, w := range want {
+					g, ok := got[ref]
+					if !ok || (g != w && g != "error") {
+						key := "different-data"
+						if once {
+							key = "different-data-once"
 						}
-						continue
-					}
-					// every object is either what it is without the fault, or an error
-					for ref, w := range want {
-						g, ok := got[ref]
-						if !ok || (g != w && g != "error") {
-							key := "different-data"
-							if once {
-								key = "different-data-once"
-							}
-							t.Errorf("B2-FAIL %s %s mode=%d once=%v k=%d ref=%v want=%.60s got=%.60s", key, doc.desc, mode, once, k, ref, w, g)
-						}
+						t.Errorf("B2-FAIL %s %s mode=%d once=%v k=%d ref=%v want=%.60s got=%.60s", key, desc, mode, once, k, ref, c19OneLine(w), c19OneLine(g))
 					}
 				}
 			}
+		}
+	}
+	return cases
+}
+
+func c19OneLine(s string) string {
+	return strings.Join(strings.Fields(s), " ")
+}
+
+func TestB2C19ReadFaults(t *testing.T) {
+	cases := 0
+	for _, doc := range c05Docs(t) {
+		cases += c19ReadSweep(t, doc.desc, doc.bytes, doc.ownerPwd, nil)
+	}
+	t.Logf("B2-CASES %d", cases)
+}
+
+// ---- C19: files in which the entries of a stream dictionary that steer the decoding are
+// indirect objects (ISO 32000-1 7.3.10: any value may be an indirect reference unless stated
+// otherwise; 7.3.8.2 names /Length explicitly).  The Writer of the library never produces
+// these, so they are assembled here from the file-structure clauses; the stream data is
+// prepared with compress/zlib and the predictor functions of 7.4.4.4 written out below. ----
+
+// c19Hand assembles a file with a classic cross-reference table from object bodies (objs[i]
+// is object i+1, generation 0).
+func c19Hand(objs []string) []byte {
+	var b bytes.Buffer
+	b.WriteString("%PDF-1.5\n%\xe2\xe3\xcf\xd3\n")
+	off := make([]int, len(objs))
+	for i, body := range objs {
+		off[i] = b.Len()
+		fmt.Fprintf(&b, "%d 0 obj\n%s\nendobj\n", i+1, body)
+	}
+	x := b.Len()
+	fmt.Fprintf(&b, "xref\n0 %d\n0000000000 65535 f \n", len(objs)+1)
+	for _, o := range off {
+		fmt.Fprintf(&b, "%010d 00000 n \n", o)
+	}
+	fmt.Fprintf(&b, "trailer\n<< /Size %d /Root 1 0 R >>\nstartxref\n%d\n%%%%EOF\n", len(objs)+1, x)
+	return b.Bytes()
+}
+
+// c19PNGUp applies PNG prediction with the Up function to every row (7.4.4.4, /Predictor 12).
+func c19PNGUp(plain []byte, rowLen int) []byte {
+	var out []byte
+	prior := make([]byte, rowLen)
+	for r := 0; r+rowLen <= len(plain); r += rowLen {
+		out = append(out, 2)
+		for i := 0; i < rowLen; i++ {
+			out = append(out, plain[r+i]-prior[i])
+		}
+		prior = plain[r : r+rowLen]
+	}
+	return out
+}
+
+// c19TIFF2 applies TIFF predictor 2 to rows of 8-bit samples (horizontal differencing per
+// colour component).
+func c19TIFF2(plain []byte, colors, columns int) []byte {
+	rowLen := colors * columns
+	out := append([]byte{}, plain...)
+	for r := 0; r+rowLen <= len(plain); r += rowLen {
+		for i := rowLen - 1; i >= colors; i-- {
+			out[r+i] = plain[r+i] - plain[r+i-colors]
+		}
+	}
+	return out
+}
+
+func c19Deflate(data []byte) []byte {
+	var z bytes.Buffer
+	zw := zlib.NewWriter(&z)
+	zw.Write(data)
+	zw.Close()
+	return z.Bytes()
+}
+
+type c19IndirectCase struct {
+	name    string
+	dict    string   // entries of the stream dictionary of object 3 (without /Length)
+	data    []byte   // stored stream data
+	helpers []string // objects 4, 5, ...
+	// lax: the fault-free walk need not decode to the prepared data.  MakeFilter has no
+	// access to the file and ignores indirect values inside a parameter dictionary (the
+	// stream is decoded with the default parameters); whether that follows the
+	// specification is a question for C04, here only "the same or an error" is required.
+	lax bool
+}
+
+func c19IndirectCases(plain []byte) []c19IndirectCase {
+	png := c19Deflate(c19PNGUp(plain, 8))
+	tiff := c19Deflate(c19TIFF2(plain, 4, 2))
+	hexed := func(d []byte) []byte { return []byte(strings.ToUpper(hex.EncodeToString(d)) + ">") }
+	const pngParms = "<< /Predictor 12 /Columns 8 >>"
+	return []c19IndirectCase{
+		{"parms-ref", "/Filter /FlateDecode /DecodeParms 4 0 R", png, []string{pngParms}, false},
+		{"parms-in-array-ref", "/Filter [ /FlateDecode ] /DecodeParms [ 4 0 R ]", png, []string{pngParms}, false},
+		{"filter-ref", "/Filter 4 0 R /DecodeParms " + pngParms, png, []string{"/FlateDecode"}, false},
+		{"filter-in-array-ref", "/Filter [ 5 0 R ] /DecodeParms [ 4 0 R ]", png, []string{pngParms, "/FlateDecode"}, false},
+		{"columns-ref", "/Filter /FlateDecode /DecodeParms << /Predictor 12 /Columns 4 0 R >>", png, []string{"8"}, true},
+		{"predictor-ref", "/Filter /FlateDecode /DecodeParms << /Predictor 4 0 R /Columns 5 0 R >>", png, []string{"12", "8"}, true},
+		{"chain-parms-ref", "/Filter [ /ASCIIHexDecode /FlateDecode ] /DecodeParms [ null 4 0 R ]", hexed(png), []string{pngParms}, false},
+		{"chain-arrays-ref", "/Filter 5 0 R /DecodeParms 6 0 R", hexed(png), []string{pngParms, "[ /ASCIIHexDecode /FlateDecode ]", "[ null 4 0 R ]"}, false},
+		{"tiff-parms-ref", "/Filter /FlateDecode /DecodeParms 4 0 R", tiff, []string{"<< /Predictor 2 /Colors 4 /BitsPerComponent 8 /Columns 2 >>"}, false},
+		{"tiff-colors-ref", "/Filter /FlateDecode /DecodeParms 4 0 R", tiff, []string{"<< /Predictor 2 /Colors 5 0 R /Columns 6 0 R >>", "4", "2"}, true},
+	}
+}
+
+func TestB2C19ReadFaultsIndirect(t *testing.T) {
+	cases := 0
+	plain := make([]byte, 128)
+	for i := range plain {
+		plain[i] = byte(i*i + 3*i + 1)
+	}
+	wantHex := " " + hex.EncodeToString(plain)
+	check := func(res map[Reference]string) string {
+		got := res[NewReference(3, 0)]
+		if !strings.HasPrefix(got, "stream ") || !strings.HasSuffix(got, wantHex) {
+			return fmt.Sprintf("object 3 does not decode to the prepared data: %.80s", got)
+		}
+		return ""
+	}
+	for _, c := range c19IndirectCases(plain) {
+		for _, lengthRef := range []bool{false, true} {
+			helpers := append([]string{}, c.helpers...)
+			length := fmt.Sprint(len(c.data))
+			if lengthRef {
+				helpers = append(helpers, length)
+				length = fmt.Sprintf("%d 0 R", 3+len(helpers))
+			}
+			objs := []string{
+				"<< /Type /Catalog /Pages 2 0 R >>",
+				"<< /Type /Pages /Kids [ ] /Count 0 >>",
+				fmt.Sprintf("<< %s /Length %s >>\nstream\n%s\nendstream", c.dict, length, c.data),
+			}
+			objs = append(objs, helpers...)
+			desc := fmt.Sprintf("indirect %s length-ref=%v", c.name, lengthRef)
+			ck := check
+			if c.lax {
+				ck = nil
+			}
+			cases += c19ReadSweep(t, desc, c19Hand(objs), "", ck)
 		}
 	}
 	t.Logf("B2-CASES %d", cases)
@@ -913,6 +1191,166 @@ func TestB2C19WriteFaults(t *testing.T) {
 				t.Errorf("B2-FAIL sink-error-lost seekable-once version=%v k=%d: %v", v, k, err)
 			}
 		}
+	}
+	t.Logf("B2-CASES %d", cases)
+}
+
+// c19Aligned is a short write script preceded by a filler object of the given size, so that
+// the boundaries of the Writer's output buffer (and with them the positions at which the sink
+// is called) move through everything the script writes, in particular through the objects
+// that Close writes: object stream, catalog, document information dictionary,
+// cross-reference section, trailer.
+func c19Aligned(sink io.Writer, v Version, human, info bool, filler int) error {
+	w, err := NewWriter(sink, v, &WriterOptions{HumanReadable: human})
+	if err != nil {
+		return err
+	}
+	var firstErr error
+	note := func(err error) {
+		if err != nil && firstErr == nil {
+			firstErr = err
+		}
+	}
+	note(w.Put(w.Alloc(), String(bytes.Repeat([]byte("f"), filler))))
+	a := w.Alloc()
+	w.GetMeta().Catalog.Pages = a
+	note(w.Put(a, Dict{"Type": Name("Pages"), "Kids": Array{}, "Count": Integer(0)}))
+	r := []Reference{w.Alloc(), w.Alloc()}
+	note(w.WriteCompressed(r, String("one"), Array{Integer(2)}))
+	if sw, err := w.OpenStream(w.Alloc(), Dict{}, FilterASCIIHex{}); err != nil {
+		note(err)
+	} else {
+		_, err = sw.Write(c02Data(150, 0))
+		note(err)
+		note(sw.Close())
+	}
+	if info {
+		w.GetMeta().Info = &Info{
+			Title:    "a title for the document information dictionary",
+			Author:   "an author",
+			Subject:  "sink failures while the last objects are written",
+			Keywords: "buffer, boundary, close",
+			Creator:  "c19Aligned",
+			Producer: "bounded harness",
+			Custom:   map[string]string{"Note": strings.Repeat("custom entry ", 8)},
+		}
+	}
+	w.GetMeta().Trailer = Dict{"VerifNote": String("an entry of the trailer dictionary")}
+	note(w.Close())
+	return firstErr
+}
+
+// TestB2C19WriteFaultsAligned: every index k of a Write or Seek call on the sink, for every
+// alignment (in steps) of the written bytes against the Writer's output buffer.
+func TestB2C19WriteFaultsAligned(t *testing.T) {
+	cases := 0
+	injected := errors.New("injected sink failure")
+	step := 8
+	humans := []bool{false}
+	if b2Thorough() {
+		step = 1
+		humans = []bool{false, true}
+	}
+	first := int(c01Seed()-1) % step
+	if first < 0 {
+		first = 0
+	}
+	for _, v := range []Version{V1_4, V1_7} {
+		for _, human := range humans {
+			for _, info := range []bool{true, false} {
+				for filler := first; filler < 4096+step; filler += step {
+					run := func(sink io.Writer) error { return c19Aligned(sink, v, human, info, filler) }
+					desc := fmt.Sprintf("aligned version=%v human=%v info=%v filler=%d", v, human, info, filler)
+					base := &c19Sink{}
+					if err := run(base); err != nil {
+						t.Errorf("B2-FAIL baseline-write %s: %v", desc, err)
+						continue
+					}
+					for k := 1; k <= base.calls; k++ {
+						cases++
+						if err := run(&c19Sink{failAt: k, err: injected}); err == nil || !errors.Is(err, injected) {
+							t.Errorf("B2-FAIL sink-error-lost %s k=%d: %v", desc, k, err)
+						}
+					}
+					sbase := &c19SeekSink{}
+					if err := run(sbase); err != nil {
+						t.Errorf("B2-FAIL baseline-write seekable %s: %v", desc, err)
+						continue
+					}
+					for k := 1; k <= sbase.calls; k++ {
+						cases += 2
+						if err := run(&c19SeekSink{failAt: k, err: injected}); err == nil || !errors.Is(err, injected) {
+							t.Errorf("B2-FAIL sink-error-lost seekable %s k=%d: %v", desc, k, err)
+						}
+						if err := run(&c19OnceSink{c19SeekSink{failAt: k, err: injected}}); err == nil || !errors.Is(err, injected) {
+							t.Errorf("B2-FAIL sink-error-lost seekable-once %s k=%d: %v", desc, k, err)
+						}
+					}
+				}
+			}
+		}
+	}
+	t.Logf("B2-CASES %d", cases)
+}
+
+// TestB2C20PrefixesNumbers: prefixes and overwritten cross-reference data of files whose
+// object numbers run up to 2^24-1 (the largest the Writer accepts) and whose generation
+// numbers run up to 65535.  Every prefix (in steps) is taken up to the start of the
+// cross-reference section; the section itself, which has one entry per object number, is cut
+// at a few places only.
+func TestB2C20PrefixesNumbers(t *testing.T) {
+	cases := 0
+	type spec struct {
+		v     Version
+		human bool
+		max   uint32
+	}
+	// Close writes the catalog and the cross-reference stream after the last object.  Files
+	// with a classic table (before 1.5, and human-readable ones) have 20 bytes per object
+	// number and are kept to six digits.
+	specs := []spec{{V1_7, false, 1<<24 - 3}, {V1_4, false, 100000}, {V2_0, true, 10000}}
+	if b2Thorough() {
+		specs = append(specs, spec{V1_5, false, 10000001}, spec{V1_3, true, 100000}, spec{V1_7, true, 1000})
+	}
+	step := 3
+	if b2Thorough() {
+		step = 1
+	}
+	for _, sp := range specs {
+		doc, err := c20NumberDoc(sp.v, sp.human, sp.max)
+		if err != nil {
+			t.Errorf("B2-FAIL write-error numbers v=%v max=%d: %v", sp.v, sp.max, err)
+			continue
+		}
+		truth := c20Truth(doc.bytes)
+		if len(truth) < 10 {
+			t.Errorf("B2-FAIL harness: %s has %d objects", doc.desc, len(truth))
+			continue
+		}
+		lastObj := truth[len(truth)-1]
+		var points []int
+		bodyEnd := min(lastObj.start+400, len(doc.bytes))
+		for n := int(c01Seed()-1) % step; n <= bodyEnd; n += step {
+			points = append(points, n)
+		}
+		for k := 1; k <= 12; k++ {
+			points = append(points, bodyEnd+(len(doc.bytes)-bodyEnd)*k/12)
+		}
+		points = append(points, lastObj.end-1, lastObj.end, lastObj.end+1)
+		for _, n := range points {
+			if n < 0 || n > len(doc.bytes) {
+				continue
+			}
+			var complete []c20Object
+			for _, g := range truth {
+				if g.end <= n {
+					complete = append(complete, g)
+				}
+			}
+			cases++
+			c20CheckScan(t, doc, doc.bytes[:n], fmt.Sprintf("prefix=%d", n), complete, n)
+		}
+		cases += c20Damaged(t, doc, truth)
 	}
 	t.Logf("B2-CASES %d", cases)
 }
